@@ -522,7 +522,81 @@ def check_counter_membership(run, db, cls, ops):
         run.ok('R-MOVE.6', inst, db.classes[cls]['loc'], 'every path that lowers capacity_ also unlinks (%d paths)' % checked)
 
 
+def touches_old_memory(db, fn, memo, depth=0):
+    """does this function (transitively) write through node/chunk links, i.e. into memory the object points into?"""
+    if fn.key in memo:
+        return memo[fn.key]
+    memo[fn.key] = False
+    if depth > 4:
+        return False
+    res = False
+    for e in fn.events():
+        t = top_term(e)
+        if e['ev'] == 'assign':
+            l = sym.canon(e['lhs'])
+            if re.search(r'\.(next|prev)$', l) and ('.next.' in l or '.prev.' in l or '->' in l):
+                res = True
+        if t is not None and t.get('k') == 'call':
+            if t.get('short') in ('xor_list_change', 'xor_list_set', 'list_set_next', 'xor_list_insert') and t.get('args'):
+                # link helper applied to something that is not one of the object's own proxy nodes
+                a0 = sym.canon(t['args'][0])
+                if 'begin_node()' not in a0 and 'end_node()' not in a0:
+                    res = True
+            callee = db.fns.get(t.get('key'))
+            if callee is not None and callee.key != fn.key and touches_old_memory(db, callee, memo, depth + 1):
+                res = True
+        if t is not None and t.get('k') == 'construct':
+            callee = db.fns.get(t.get('key'))
+            if callee is not None and touches_old_memory(db, callee, memo, depth + 1):
+                res = True
+        if e['ev'] == 'decl':
+            for v in e['vars']:
+                init = v.get('init') or {}
+                if init.get('k') == 'construct':
+                    callee = db.fns.get(init.get('key'))
+                    if callee is not None and touches_old_memory(db, callee, memo, depth + 1):
+                        res = True
+    memo[fn.key] = res
+    return res
+
+
+def check_assign_order(run, db, cls, ops):
+    """memberwise move assignment: the arena (owner of the blocks) is assigned after every member whose own move assignment
+    writes into memory it points to - otherwise those writes hit blocks that were just returned to the block source"""
+    fn = ops.get('move-assign')
+    if fn is None or is_tmp_swap(fn):
+        return
+    crec = db.classes.get(cls)
+    ftypes = {f['name']: f['t'] for f in crec['fields']}
+    arena_fields = [n for n, t in ftypes.items() if cls_template(t) == 'memory_arena']
+    if not arena_fields:
+        return
+    seq = []
+    for e, t in flow.call_events(fn):
+        if t.get('short') == 'operator=' and isinstance(t.get('recv'), dict):
+            r = sym.canon(t['recv'])
+            if r.startswith('this.') and r[5:] in ftypes:
+                seq.append((r[5:], t))
+    memo = {}
+    inst = '%s [%s]' % (fn.display, db.config)
+    problems = []
+    seen_arena = False
+    for name, t in seq:
+        if name in arena_fields:
+            seen_arena = True
+            continue
+        callee = db.fns.get(t.get('key'))
+        if seen_arena and callee is not None and touches_old_memory(db, callee, memo):
+            problems.append('%s is move-assigned after %s: %s relinks the nodes of the old list, which live in blocks that the arena assignment has already returned to the block source'
+                            % (name, arena_fields[0], strip_ns(ftypes[name])))
+    if problems:
+        run.violation('R-MOVE.7', inst, fn.loc, '; '.join(problems), site={'function': '%s::move-assign' % cls_template(cls), 'role': 'owner assigned last'})
+    else:
+        run.ok('R-MOVE.7', inst, fn.loc, 'members that touch their old memory are assigned before the arena (order: %s)' % ', '.join(n for n, _ in seq))
+
+
 def run(run):
+    run.rule('R-MOVE.7', 'memberwise move assignment assigns the arena after members that write into their old memory', floor=4)
     run.rule('R-MOVE.1', 'coverage of fields and bases in move ctor / move assignment / swap', floor=30)
     run.rule('R-MOVE.2', 'copied owner fields are reset in the source on the same path', floor=15)
     run.rule('R-MOVE.3', 'destructor safe on the moved-from value', floor=1)
@@ -547,6 +621,7 @@ def run(run):
             check_release_before_overwrite(run, db, cls, ops)
             check_self_address(run, db, cls, ops)
             check_counter_membership(run, db, cls, ops)
+            check_assign_order(run, db, cls, ops)
     run.count('classes_with_move_operations', n_cls)
     if n_cls < 40:
         run.broke('only %d class instantiations with user-provided move operations found' % n_cls)
